@@ -1,11 +1,12 @@
 /-
 QV.Model.Stats — model of the streaming statistics of observables:
- * `_update_statistics`                       qucumber/observables/utils.py:36-55   (with the F6 guards)
- * `ObservableBase.statistics_from_samples`   qucumber/observables/observable.py:223-249
- * `ObservableBase.statistics`                qucumber/observables/observable.py:135-221
- * `System.statistics`                        qucumber/observables/system.py:31-125
+ * `_update_statistics`                       qucumber/observables/utils.py:36-53   (with the F6 guards)
+ * `ObservableBase.statistics_from_samples`   qucumber/observables/observable.py:231-257
+ * `ObservableBase.statistics`                qucumber/observables/observable.py:143-229
+ * `System.statistics`                        qucumber/observables/system.py:32-126
  * `System.__init__` (dictionary keyed by `obs.name`), `System.statistics_from_samples`   system.py:29-30, 128-150
- * `ObservableBase.sample`                    qucumber/observables/observable.py:107-133
+ * `ObservableBase.sample`                    qucumber/observables/observable.py:115-141
+(line numbers as of /repo 28c06be, i.e. after fix F16 = ac95f92, numpy left operand, which added 8 lines to observable.py)
 
 The variance of fewer than two values is `none` (Python: `nan`), never `x / 0`.
 `nn_state.sample` is an external, random call: it is a parameter (`Env.samp`, indexed by the call number so that
@@ -43,7 +44,7 @@ def uvarL (xs : List α) : Option α :=
 /-- `np.sqrt(variance / length)` with `nan` propagated. -/
 def stdErr (v : Option α) (len : Nat) : Option α := v.map (fun v => Transc.sqrt (v / Transc.ofNat len))
 
-/-- body of `statistics_from_samples` for a non-empty tensor of per-sample values (observable.py:238-249). -/
+/-- body of `statistics_from_samples` for a non-empty tensor of per-sample values (observable.py:246-257). -/
 def statOf (xs : List α) : Stat α :=
   ⟨meanL xs, uvarL xs, stdErr (uvarL xs) xs.length, xs.length⟩
 
@@ -62,7 +63,7 @@ def oadd (a b : Option α) : Option α :=
   | some x, some y => some (x + y)
   | _, _ => none
 
-/-- `_update_statistics(avg_a, var_a, len_a, avg_b, var_b, len_b)` (utils.py:36-55), operation by operation. -/
+/-- `_update_statistics(avg_a, var_a, len_a, avg_b, var_b, len_b)` (utils.py:36-53), operation by operation. -/
 def updateStatistics (avgA : α) (varA : Option α) (lenA : Nat) (avgB : α) (varB : Option α) (lenB : Nat) :
     α × Option α × Nat :=
   if lenA == 0 && lenB == 0 then (0, some 0, 0)
@@ -75,7 +76,7 @@ def updateStatistics (avgA : α) (varA : Option α) (lenA : Nat) (avgB : α) (va
     let newVar := if newLen > 1 then newVar.map (fun v => v / Transc.ofNat (newLen - 1)) else none
     (newMean, newVar, newLen)
 
-/-- one iteration's accumulator update in `ObservableBase.statistics` (observable.py:203-210): the chunk's
+/-- one iteration's accumulator update in `ObservableBase.statistics` (observable.py:211-220): the chunk's
 `mean`/`variance` are merged in with `len_b = num_chains`. -/
 def accStep (c : Nat) (acc : α × Option α × Nat) (s : Stat α) : α × Option α × Nat :=
   updateStatistics acc.1 acc.2.1 acc.2.2 s.mean s.variance c
@@ -84,20 +85,20 @@ def accStep (c : Nat) (acc : α × Option α × Nat) (s : Stat α) : α × Optio
 def foldStats (c : Nat) (chunks : List (Stat α)) : α × Option α × Nat :=
   chunks.foldl (accStep c) (0, some 0, 0)
 
-/-- the returned dictionary (observable.py:212-219); `running_variance / running_length` with
+/-- the returned dictionary (observable.py:222-229); `running_variance / running_length` with
 `running_length = 0` is a Python `float / 0` → `ZeroDivisionError`. -/
 def finish (acc : α × Option α × Nat) : Except PyErr (Stat α) :=
   if acc.2.2 == 0 then .error .ZeroDivisionError
   else .ok ⟨acc.1, acc.2.1, stdErr acc.2.1 acc.2.2, acc.2.2⟩
 
-/-- inner loop of `System.statistics` for one draw (system.py:100-110): every observable is merged with
+/-- inner loop of `System.statistics` for one draw (system.py:102-112): every observable is merged with
 `len_a = total_samples` (the value BEFORE this draw) and `len_b = num_chains`; the third result is discarded. -/
 def sysInner (c total : Nat) (accs : List (α × Option α)) (row : List (Stat α)) : List (α × Option α) :=
   List.zipWith (fun a s =>
     let r := updateStatistics a.1 a.2 total s.mean s.variance c
     (r.1, r.2.1)) accs row
 
-/-- one draw of `System.statistics`: inner loop, then `total_samples += num_chains` (system.py:112). -/
+/-- one draw of `System.statistics`: inner loop, then `total_samples += num_chains` (system.py:114). -/
 def sysStep (c : Nat) (st : List (α × Option α) × Nat) (row : List (Stat α)) : List (α × Option α) × Nat :=
   (sysInner c st.2 st.1 row, st.2 + c)
 
@@ -105,7 +106,7 @@ def sysStep (c : Nat) (st : List (α × Option α) × Nat) (row : List (Stat α)
 def sysFold (c m : Nat) (rows : List (List (Stat α))) : List (α × Option α) × Nat :=
   rows.foldl (sysStep c) (List.replicate m (0, some 0), 0)
 
-/-- the dictionary comprehension at the end of `System.statistics` (system.py:114-123): one division
+/-- the dictionary comprehension at the end of `System.statistics` (system.py:116-125): one division
 `variances[name] / total_samples` per observable. -/
 def sysFinish (st : List (α × Option α) × Nat) : Except PyErr (List (Stat α)) :=
   if st.1.isEmpty then .ok []
@@ -151,7 +152,7 @@ structure Args (σ : Type) where
   init : Option σ
   overwrite : Bool
 
-/-- chain set-up (observable.py:182-190, system.py:83-91): the starting `chains` object and `num_chains`. -/
+/-- chain set-up (observable.py:191-198, system.py:82-89): the starting `chains` object and `num_chains`. -/
 def chainSetup (env : Env σ) (a : Args σ) : Option σ × Nat :=
   match a.init with
   | some s => (some (if a.overwrite then s else env.clone s), env.rows s)
@@ -206,7 +207,7 @@ def sysStatistics (env : Env σ) (fs : List (σ → List α)) (a : Args σ) :
       | .error e => .error e
       | .ok ss => .ok (ss, ds.map (·.1))
 
-/-- `ObservableBase.sample(nn_state, k, num_samples, initial_state, overwrite)` (observable.py:107-133): ONE sampler
+/-- `ObservableBase.sample(nn_state, k, num_samples, initial_state, overwrite)` (observable.py:115-141): ONE sampler
 call that receives exactly the caller's four arguments, and the observable applied to the tensor it returns. -/
 def obsSample (env : Env σ) (f : σ → List α) (k numSamples : Nat) (init : Option σ) (overwrite : Bool) :
     List α × SampleCall σ :=
